@@ -28,9 +28,12 @@ RULE = (
     "hold. Facet preserve-race: 2-3 threads invoke one preserve_context callable under schedules at source-line and bytecode-instruction granularity of "
     "eliot/_action.py (generated plans + complete single-preemption enumeration); oracle: the function runs exactly once, "
     "exactly one call returns its result (or raises its exception object), every other call raises TooManyCalls, one "
-    "remote sub-tree is logged with no duplicate level. Facet preserve-seq: wrap with/without a current action, extra keyword arguments of arbitrary names, 0-4 "
-    "sequential calls, result or exception; oracle as above plus identity `preserve_context(f) is f` without a current "
-    "action. Non-trivial: a hop at depth >= 2, or >= 2 hops, or a merge order that interleaves sides, or a schedule that "
+    "remote sub-tree is logged with no duplicate level. Facet id-race(-enum): 2-3 threads inside one action hand out ids (serialize_task_id / preserve_context) "
+    "while the others log there, under the same two schedule granularities; every id is then continued and the merged log must parse "
+    "to one complete task with one remote sub-tree per id. Facet preserve-seq: wrap with/without a current action a plain function, a functools.wraps-decorated one whose "
+    "wrapper supplies an argument, a callable object, a partial or a bound method; extra keyword arguments of arbitrary names, 0-4 "
+    "sequential calls (inside or after the originating action, same thread), result or exception; oracle as above plus identity `preserve_context(f) is f` without a current "
+    "action, and the function's message lies inside the one remote sub-tree below the origin. Non-trivial: a hop at depth >= 2, or >= 2 hops, or a merge order that interleaves sides, or a schedule that "
     "switches inside restore_eliot_context. Distinct = canonical JSON of the case."
 )
 ASSUMPTIONS = [
@@ -230,6 +233,116 @@ def race_enum_runner(mod, facet, tier, seed, shard, nshards, stats):
     enumerate_cases(mod, facet, cases, shard, nshards, stats, exhaustive=True)
 
 
+# ------------------------------------------------- ids handed out under a race
+
+
+def check_id_race(case):
+    """
+    Threads working inside one action hand out task ids (serialize_task_id, or
+    preserve_context) while the others log there, under schedules of
+    eliot/_action.py.  Afterwards every id is continued, one after the other;
+    the merged log must be one complete task in which every remote sub-tree
+    sits at a position of its own.
+    """
+    from eliot import Action
+    from eliot.parse import Parser
+
+    saved = Logger._destinations
+    fresh = Destinations()
+    Logger._destinations = fresh
+    msgs = []
+    lock = threading.Lock()
+
+    def dest(m):
+        with lock:
+            msgs.append(dict(m))
+
+    fresh.add(dest)
+    saved_threading = _action.threading
+    _action.threading = sched.coop_threading_module()
+    handed = []
+    try:
+        with start_action(action_type="c06:origin") as origin:
+            def worker(tid, ops):
+                def run():
+                    with origin.context():
+                        for k, op in enumerate(ops):
+                            if op == "m":
+                                log_message(message_type="c06:m", who="t%d.%d" % (tid, k))
+                            elif op == "s":
+                                handed.append(("id", origin.serialize_task_id(), "t%d.%d" % (tid, k)))
+                            else:
+                                who = "t%d.%d" % (tid, k)
+                                handed.append(("callable", preserve_context(lambda who=who: log_message(message_type="c06:remote", who=who)), who))
+
+                return run
+
+            s = sched.Scheduler(("eliot/_action.py",), case["plan"], opcodes=bool(case.get("opcodes")))
+            s.run([worker(i, ops) for i, ops in enumerate(case["threads"])])
+            for wid, e in s.errors.items():
+                if isinstance(e, HarnessError):
+                    raise e
+                raise Violation("thread-raised", "worker %d raised %r" % (wid, e))
+            _action.threading = saved_threading
+
+            def continue_all():
+                for kind, thing, who in handed:
+                    if kind == "id":
+                        with Action.continue_task(task_id=thing):
+                            log_message(message_type="c06:remote", who=who)
+                    else:
+                        thing()
+
+            t = threading.Thread(target=continue_all)
+            t.start()
+            t.join()
+    finally:
+        Logger._destinations = saved
+        _action.threading = saved_threading
+    described = [(m.get("message_type") or m.get("action_type"), m["task_level"], m.get("who")) for m in msgs]
+    try:
+        invariants.check_messages(msgs, causal=False)
+    except Violation as v:
+        raise Violation(v.kind, "%s; logged %r" % (v.detail, described))
+    tasks = list(Parser.parse_stream(msgs))
+    require(len(tasks) == 1 and tasks[0].is_complete(), "merged-log-not-one-complete-task", lambda: "%d task(s), complete=%r; logged %r" % (len(tasks), [t.is_complete() for t in tasks], described))
+    root = tasks[0].root()
+    remote = [c for c in root.children if getattr(c, "action_type", None) == "eliot:remote_task"]
+    require(len(remote) == len(handed), "remote-subtree-count", lambda: "%d ids handed out, %d remote sub-trees below the origin; logged %r" % (len(handed), len(remote), described))
+    inside = s.switched_inside(("serialize_task_id", "_nextTaskLevel", "preserve_context", "log", "toString", "to_string"))
+    return {"switches": len(s.switches), "switch_inside": len(inside), "ids": len(handed)}
+
+
+def classify_id_race(case, info):
+    labels = ["threads=%d" % len(case["threads"]), "ids=%d" % min(info["ids"], 4), "switches=%d" % min(info["switches"], 6), "granularity:bytecode" if case.get("opcodes") else "granularity:line"]
+    if info["switch_inside"]:
+        labels.append("preempted-while-handing-out-an-id")
+    return info["ids"] >= 1 and info["switch_inside"] >= 1, labels
+
+
+def id_race_strategy():
+    ops = st.lists(st.sampled_from(["m", "s", "p"]), min_size=1, max_size=3)
+    return st.builds(
+        lambda opc, plan, threads: sched.with_granularity({"plan": plan, "threads": threads}, opc),
+        st.sampled_from([False, True]),
+        sched.plans(max_segments=10, max_steps=20, workers=3),
+        st.lists(ops, min_size=2, max_size=3).filter(lambda ts: any(op != "m" for t in ts for op in t)),
+    )
+
+
+def id_race_enum_runner(mod, facet, tier, seed, shard, nshards, stats):
+    from ..core import enumerate_cases
+
+    cases = []
+    for threads in ([["s"], ["m"]], [["p"], ["m"]], [["s"], ["s"]], [["p"], ["s", "m"]]):
+        for plan in sched.single_preemption_plans(2, 30):
+            cases.append({"plan": plan, "threads": threads})
+        for k in range(0, 220 if tier == "thorough" else 140):
+            cases.append({"opcodes": True, "plan": [[k, 0], [10**6, 1]], "threads": threads})
+    stats.extra["enumerated_plans"] = len(cases)
+    enumerate_cases(mod, facet, cases, shard, nshards, stats, exhaustive=True)
+
+
 # ------------------------------------------------------- sequential histories
 
 
@@ -253,6 +366,8 @@ def check_seq(case):
         if case["raises"]:
             raise boom
         return (sentinel, a, b)
+
+    f = _as_kind(f, case.get("fkind", 0))
 
     try:
         if case["context"]:
@@ -279,10 +394,52 @@ def check_seq(case):
         if n >= 1:
             # (an id that is never used leaves a reserved gap by design)
             invariants.check_messages(msgs, causal=False)
+            # the one call that ran did so inside a remote sub-tree that is a child of the originating action
+            remote = [m for m in msgs if m.get("action_type") == "eliot:remote_task" and m.get("action_status") == "started"]
+            require(len(remote) == 1, "remote-subtree-count", lambda: "%d eliot:remote_task start messages for a preserved callable that ran once; logged %r" % (len(remote), [(m.get("message_type") or m.get("action_type"), m["task_level"]) for m in msgs]))
+            inside = [m for m in msgs if m.get("message_type") == "c06:inside"]
+            origin = [m for m in msgs if m.get("action_type") == "c06:origin"][0]
+            require(
+                len(inside) == 1 and inside[0]["task_uuid"] == origin["task_uuid"] == remote[0]["task_uuid"] and inside[0]["task_level"][:-1] == remote[0]["task_level"][:-1] and len(remote[0]["task_level"]) == 2,
+                "not-in-remote-subtree",
+                lambda: "the function's message %r is not inside the remote sub-tree %r of the origin" % ([(m["task_uuid"][:8], m["task_level"]) for m in inside], (remote[0]["task_uuid"][:8], remote[0]["task_level"])),
+            )
     else:
         want = ["boom" if case["raises"] else "result"] * n
         require(outcomes == want, "outcomes", lambda: "outcomes %r, expected %r" % (outcomes, want))
     return {"calls": n}
+
+
+def _as_kind(f, kind):
+    """The same function as the kinds of callables people hand to preserve_context."""
+    import functools
+
+    if kind == 1:
+        # a decorator that supplies the first argument (functools.wraps: __wrapped__ names a different signature)
+        def inner(connection, a, b=2, **kwargs):
+            assert connection == "connection"
+            return f(a, b, **kwargs)
+
+        @functools.wraps(inner)
+        def outer(*args, **kwargs):
+            return inner("connection", *args, **kwargs)
+
+        return outer
+    if kind == 2:
+        class Job(object):
+            def __call__(_s, a, b=2, **kwargs):
+                return f(a, b, **kwargs)
+
+        return Job()
+    if kind == 3:
+        return functools.partial(lambda z, a, b=2, **kwargs: f(a, b, **kwargs), "z")
+    if kind == 4:
+        class Owner(object):
+            def method(_s, a, b=2, **kwargs):
+                return f(a, b, **kwargs)
+
+        return Owner().method
+    return f
 
 
 def _call_n(wrapped, n, boom, sentinel, kwargs=None):
@@ -306,6 +463,7 @@ def _call_n(wrapped, n, boom, sentinel, kwargs=None):
 
 def classify_seq(case, info):
     labels = ["calls=%d" % case["calls"], "context" if case["context"] else "no-context", "raises" if case["raises"] else "returns"]
+    labels.append("callable:" + ["function", "wraps-decorated", "callable-object", "partial", "bound-method"][case.get("fkind", 0)])
     if case.get("kwargs"):
         labels.append("extra-keyword-arguments")
     return case["calls"] >= 2 and case["context"], labels
@@ -313,7 +471,8 @@ def classify_seq(case, info):
 
 def seq_strategy():
     return st.builds(
-        lambda c, ci, r, n, kw: {"context": c, "call_inside": ci, "raises": r, "calls": n, "kwargs": kw},
+        lambda fk, c, ci, r, n, kw: {"fkind": fk, "context": c, "call_inside": ci, "raises": r, "calls": n, "kwargs": kw},
+        st.sampled_from([0, 0, 1, 2, 3, 4]),
         st.booleans(),
         st.booleans(),
         st.booleans(),
@@ -327,5 +486,7 @@ FACETS = [
     Facet("handoff", handoff_strategy, check_handoff, classify_handoff, quick=600, thorough=15000),
     Facet("preserve-race", race_strategy, check_race, classify_race, quick=300, thorough=20000),
     Facet("preserve-race-enum", None, check_race, classify_race, quick=1, thorough=1, runner=race_enum_runner),
+    Facet("id-race", id_race_strategy, check_id_race, classify_id_race, quick=200, thorough=10000),
+    Facet("id-race-enum", None, check_id_race, classify_id_race, quick=1, thorough=1, runner=id_race_enum_runner),
     Facet("preserve-seq", seq_strategy, check_seq, classify_seq, quick=400, thorough=4000, quick_shards=2, thorough_shards=2),
 ]
